@@ -16,7 +16,7 @@
     [e_mime]; lxml's parsing and serialisation of the attribute values. *)
 From Coq Require Import List NArith Bool String.
 From RG Require Import Base.Str Base.Dec Model.Url Model.Href Model.Fs Model.Site Spec.SiteSpec
-  Proofs.SiteLinks Proofs.SiteAssets Proofs.SiteB64.
+  Proofs.SiteLinks Proofs.SiteAssets Proofs.SiteB64 Proofs.FsResolve.
 Import ListNotations.
 Open Scope string_scope.
 Open Scope list_scope.
@@ -173,3 +173,29 @@ Theorem C16_unresolvable_aborts : forall fs root source from lookup url parts r,
   rewrite_link fs root source from lookup url = LErr (rres_err r).
 Proof. exact rewrite_link_unresolvable. Qed.
 Print Assumptions C16_unresolvable_aborts.
+
+(** ** The copied file is reached without passing through any symbolic link
+
+    [Path.resolve()] returns a path none of whose prefixes is a symbolic link ([link_free]): the
+    file that is copied is PHYSICALLY located at [root ++ rel] inside the resolved root
+    directory - the containment test cannot be satisfied by a path that re-enters the root
+    through a link, or leaves it through one. *)
+Theorem C16_resolved_path_link_free : forall fs p q,
+  (forall t, fs <> NLink t) -> realpath fs p = ROk q -> link_free fs q.
+Proof. exact realpath_link_free. Qed.
+Print Assumptions C16_resolved_path_link_free.
+
+Theorem C16_asset_path_link_free : forall fs root source from lookup url u src dst,
+  (forall t, fs <> NLink t) ->
+  rewrite_link fs root source from lookup url = LAsset u src dst -> link_free fs src.
+Proof.
+  intros fs root source from lookup url u src dst Hfs H.
+  apply rewrite_link_asset in H as (parts & rroot & rel & _ & _ & Hf & _).
+  unfold url_fspath in Hf. eapply realpath_link_free; eassumption.
+Qed.
+Print Assumptions C16_asset_path_link_free.
+
+Example C16_asset_path_link_free_ex :
+  realpath demo_fs (demo_root ++ [s "sub"; s "inside.png"]) = ROk (demo_root ++ [s "pic.png"]) /\
+  realpath demo_fs (demo_root ++ [s "sub"; s "escape.png"]) = ROk [s "B"; s "outside"; s "secret.bin"].
+Proof. split; vm_compute; reflexivity. Qed.
